@@ -108,6 +108,11 @@ func EndBlocker(ctx sdk.Context, k keeper.Keeper) {
 						sdk.NewAttribute(types.AttributeKeyConsumer, requestContext.Consumer),
 					),
 				})
+				// without a price the batch cannot start: pause the context (its consumer can
+				// start it again) and take it off the queue, instead of leaving a stale entry
+				// behind that blocks every later start
+				k.OnRequestContextPaused(ctx, requestContext, requestContextID, "no exchange rate")
+				k.DeleteNewRequestBatch(ctx, requestContextID, ctx.BlockHeight())
 				return
 			}
 
